@@ -18,13 +18,15 @@ TECHNIQUE = ("stateless model checking of the real implementation under a contro
              "scheduler: deviation-bounded DFS over task completion orders x exhaustive enumeration "
              "of inputs and execution configurations (threads, chunk-wise factorisation fan-out, "
              "Arrow chunk layouts of keys and values); differential oracle against the "
-             "single-threaded, unchunked, FIFO execution")
+             "single-threaded, unchunked, FIFO execution"
+             '; task-footprint recorder for the independence premise of the partial-order reduction')
 RULE = ("case = one word over rows (key incl. null, value null/non-null, mask bit); every case "
         "runs every operation under the baseline (T=1, whole factorisation, contiguous arrays, FIFO) "
         "and under every configuration x every schedule with <= D deviations from FIFO plus the "
         "all-reversed schedule; state = (input, configuration, schedule); outcome must equal the "
         "baseline normal form exactly; non-trivial = >= 2 rows and some configuration splits them")
 ASSUMPTIONS = [
+    "footprint sub-spaces: around every task body all array memory reachable from any task of the pool, finished tasks' results and the library's module-level state is compared element by element (write-write conflicts, writes into another task's result); quick: one configuration per kind of pool on A(2)^3, thorough: all configurations and operations",
     "tasks run to completion one at a time in the chosen order (completion order = execution "
     "order); interleavings inside numba kernels are not modelled (tasks write only arrays they "
     "allocate - C19 checks the caller's inputs; the 'footprint' sub-spaces compare, around every task "
